@@ -2,12 +2,12 @@ SPECIFICATION Spec
 CONSTANTS
   ChainParams <- GrinChainParams
   Deltas = {1, 30, 60, 120, 7200}
-  Diffs = {3, 1000, 300000}
-  Scals = {13, 20, 1856}
+  Diffs = {3, 140000}
+  Scals = {13, 1856}
   Bases = {5, 1600000000}
   ShortLens = {0, 1, 2, 3}
   LongLens = {59, 60, 61, 62}
-  Splits = {1, 2, 30, 58}
+  Splits = {1, 30, 58}
   ShortPairs <- ThoroughShortPairs
   LongPairs <- ThoroughLongPairs
 INVARIANTS CasesInRange RetargetMin RetargetStep PaddingTotal Emit
